@@ -53,16 +53,17 @@ func MkBlock(num uint64, id, parent string, lib uint64) *pbbstream.Block {
 // ---------------------------------------------------------------- request / result
 
 type Req struct {
-	Prod    bool
-	Start   int64
-	Stop    uint64
-	Final   uint64 // most recent final block known to the server; HasFinal=false: unknown
-	NoFinal bool
-	Head    uint64 // chain head (blocks above Final are New, not final)
-	Seg     uint64
-	Workers int
-	Cursor  string
-	Output  string
+	Prod      bool
+	Start     int64
+	Stop      uint64
+	Final     uint64 // most recent final block known to the server; HasFinal=false: unknown
+	FinalOnly bool   // final_blocks_only request
+	NoFinal   bool
+	Head      uint64 // chain head (blocks above Final are New, not final)
+	Seg       uint64
+	Workers   int
+	Cursor    string
+	Output    string
 }
 
 type Msg struct {
@@ -145,6 +146,12 @@ func (f *feeder) Run(context.Context) error { return f.run() }
 
 // canonFeed sends the canonical chain [start, …] to h: blocks <= final as new+irreversible, blocks above as new.
 func canonFeed(h bstream.Handler, start, stop, final, head uint64, failAt int64) error {
+	return canonFeedF(h, start, stop, final, head, failAt, false)
+}
+
+// canonFeedF: finalOnly = the block source of a final_blocks_only request: blocks that are final when the stream starts
+// arrive as new+irreversible, the others arrive once they are final, with the bare IRREVERSIBLE step
+func canonFeedF(h bstream.Handler, start, stop, final, head uint64, failAt int64, finalOnly bool) error {
 	for n := start; n <= head; n++ {
 		if stop != 0 && n > stop { // the pipeline answers io.EOF at the stop block; never feed far beyond
 			break
@@ -157,6 +164,9 @@ func canonFeed(h bstream.Handler, start, stop, final, head uint64, failAt int64)
 		if n <= final {
 			lib = n
 			step = bstream.StepNewIrreversible
+		} else if finalOnly {
+			lib = n
+			step = bstream.StepIrreversible
 		}
 		parent := ""
 		if n > 0 {
@@ -390,7 +400,7 @@ func (w *World) runOnce(dir string, req Req, opts Opts) *Result {
 			if opts.Feed != nil {
 				return opts.Feed(h, start, stopBlockNum, cursor)
 			}
-			return canonFeed(h, start, stopBlockNum, req.Final, req.Head, -1)
+			return canonFeedF(h, start, stopBlockNum, req.Final, req.Head, -1, finalBlocksOnly)
 		}}, nil
 	}
 	if opts.RealWorker {
@@ -406,7 +416,7 @@ func (w *World) runOnce(dir string, req Req, opts Opts) *Result {
 	if req.NoFinal {
 		svc = service.TestNewService(rc, 0, sf)
 	}
-	preq := &pbsubstreamsrpc.Request{StartBlockNum: req.Start, StopBlockNum: req.Stop, StartCursor: req.Cursor, Modules: w.Modules(), OutputModule: req.Output, ProductionMode: req.Prod}
+	preq := &pbsubstreamsrpc.Request{StartBlockNum: req.Start, StopBlockNum: req.Stop, StartCursor: req.Cursor, Modules: w.Modules(), OutputModule: req.Output, ProductionMode: req.Prod, FinalBlocksOnly: req.FinalOnly}
 	ctx := NewCtx()
 	if opts.RealWorker {
 		ctx = reqctx.WithTier2RequestParameters(ctx, reqctx.Tier2RequestParameters{
